@@ -35,6 +35,7 @@ def stepLine (st : DState) (line : String) : DState × String :=
   | ["mon.c01.genesis-consistency", _] => (st, "pass")  -- a validated genesis cannot make an append overwrite a record
   | ["mon.c13.genesis-consistency", _] => (st, "pass")  -- nor start a chain whose counters differ from its contents
   | ["mon.c08.export-at-sequence-end"] => (st, "pass")  -- whatever state accepted operations reach, its export validates
+  | ["mon.c18.genesis-key-strings"] => (st, "pass")  -- roundtrip_owner/_topic/_writer/_record: distinct admitted keys have distinct strings that decode back
   | ["mon.c08.app-export"] => (st, "pass")  -- the application's export entry point (at height, zero-height) succeeds and carries the modules' export
   | ["mon.c08.utf8"] => (st, "pass")      -- what C08 demands; the implementation fails it (known finding F15)
   | ["genesis.roundtrip"] =>
@@ -56,6 +57,8 @@ def stepLine (st : DState) (line : String) : DState × String :=
   | ["mon.c07.module-account-recipient"] => (st, "pass")  -- the transit module account cannot be squatted: the end-blocker never halts
   | ["mon.c07.endblock-movers"] => (st, "pass")   -- whatever reaches the burn address while the block ends is burned in that block
   | ["mon.c15.fee-denoms"] => (st, "pass")   -- the whole declared fee moves, in every denomination: what C15 demands
+  | ["mon.c16.stored-within-limits"] => (st, "pass")  -- the handlers store what was validated (addWriter_refines …): nothing outside the limits
+  | ["mon.c14.signature-transplant", _] => (st, "pass")  -- a signature made for one message does not validate a transaction carrying another
   | "mon.c14.pair" :: _ => (st, "pass")
   | "mon.c14.pair.utf8" :: _ => (st, "pass")
   | "mon.c03.utf8" :: _ => (st, "pass")
@@ -74,8 +77,8 @@ def stepLine (st : DState) (line : String) : DState × String :=
       | some (d, ans) => ({ st with aol := d }, ans)
       | none => (st, "bad-op")
     else if tok = "ks.load" then (st, (ksStep toks).getD "bad-op")
-    else if tok = "mon.c17" || tok = "mon.c17.f14" || tok.startsWith "mon.c20." ||
-        tok = "mon.c09.block" || tok = "mon.c09.parallelism" || tok = "mon.c09.genesis-spellings" || tok = "mon.c09.genesis-order" || tok = "mon.c10.block" || tok = "mon.c10.restart-after-handler" || tok = "mon.c10.stale-upgrade-info" || tok = "mon.c10.restart-after-param-change" || tok = "mon.c19.upgrade" || tok = "mon.c19.database-of-the-upgrade-path" || tok = "mon.c19.genesis-without-upgrade-section" then
+    else if tok = "mon.c17" || tok = "mon.c17.f14" || tok = "mon.c17.concurrent-validation" || tok.startsWith "mon.c20." ||
+        tok = "mon.c09.block" || tok = "mon.c09.parallelism" || tok = "mon.c09.read-history" || tok = "mon.c09.genesis-spellings" || tok = "mon.c09.genesis-order" || tok = "mon.c10.block" || tok = "mon.c10.restart-after-handler" || tok = "mon.c10.stale-upgrade-info" || tok = "mon.c10.restart-inside-upgrade-block" || tok = "mon.c19.start-at-upgrade-height" || tok = "mon.c10.restart-after-param-change" || tok = "mon.c19.upgrade" || tok = "mon.c19.database-of-the-upgrade-path" || tok = "mon.c19.genesis-without-upgrade-section" then
       -- runtime monitors: the model's verdict is what the property demands (Properties/C09, C10, C19, C20)
       (st, "pass")
     else if tok.startsWith "bank." || tok = "endblock" || tok = "mon.c07.inv" then
